@@ -100,6 +100,18 @@ def main():
                 ss.append(h(one.xyz[0]))
             out["rmsd|par%d|single" % par] = sr
             out["superpose|par%d|single" % par] = ss
+    # separate alignment selections given as index arrays and as slices (a slice of one frame is a contiguous view of the coordinates)
+    for label, sel in (("arange", np.arange(10, 90)), ("slice0", slice(0, 80)), ("slice", slice(10, 90)), ("stride", slice(None, None, 3))):
+        tt = md.Trajectory(t.xyz.copy(), t.topology)
+        tt.superpose(fresh_ref(), 3, atom_indices=sel)
+        out["superpose-sel-%s|whole" % label] = [h(tt.xyz[i]) for i in range(t.n_frames)]
+        if os.environ.get("C08_SINGLE") == "1":
+            ss = []
+            for i in range(t.n_frames):
+                one = md.Trajectory(t.xyz[i:i + 1].copy(), t.topology)
+                one.superpose(fresh_ref(), 3, atom_indices=sel)
+                ss.append(h(one.xyz[0]))
+            out["superpose-sel-%s|single" % label] = ss
     print("RESULT " + json.dumps(out))
 
 
